@@ -627,6 +627,8 @@ TEMPLATE_BODIES = {
     'runtime': '{{ mib.meta.module }}: {{ mib.nothing.here.at.all }}\n',
     'include': '{{ mib.meta.module }}{% include "no-such-partial.j2" %}\n',
     'filter': '{{ mib.meta.module | nosuchfilter }}\n',
+    # fails at render time for some modules only (those whose name starts with B or D)
+    'runtime-some': '{% if mib.meta.module[0] in "BD" %}{{ mib.nothing.here.at.all }}{% endif %}ok {{ mib.meta.module }}\n',
 }
 
 
@@ -1009,7 +1011,7 @@ def gen_world(rng, tier, focus='C07'):
     if rng.random() < 0.07:
         # a user-supplied output template (the dstTemplate option): healthy, another stock template, missing, or broken
         # in one of the ways a template can be broken - a configuration input that can be absent or damaged like any file
-        scn['template'] = rng.choice(['valid', 'stock', 'stock-other', 'missing', 'syntax', 'runtime', 'include', 'filter'])
+        scn['template'] = rng.choice(['valid', 'stock', 'stock-other', 'missing', 'syntax', 'runtime', 'runtime-some', 'runtime-some', 'include', 'filter'])
     if rng.random() < 0.15:
         # second compile() call on the same compiler object after the sources changed
         gain, lose = {}, {}
